@@ -2598,4 +2598,91 @@ theorem lastPlain_of_B {p : Pat} (h : p.lastPlainB = true) : p.lastPlain := by
 
 end Enumeration
 
+/-! ## witnesses of the known findings C01-enum-later-ref and C01-late-selfref-all -/
+
+/-- C01-enum-later-ref: `A as a -> all B where x > b.x as b -> C where x < b.x as c` on A, B{x:5}, B{x:9}, C{x:7} -/
+def c01EnumPat : Pat :=
+  { steps := [⟨"A", none, some "a", false⟩, ⟨"B", some (.cmpRef "x" .gt "b" "x"), some "b", true⟩,
+              ⟨"C", some (.cmpRef "x" .lt "b" "x"), some "c", false⟩], partition := none, negs := [] }
+def c01EnumEvs : List Event :=
+  [⟨0, "A", []⟩, ⟨1, "B", [("x", .int 5)]⟩, ⟨2, "B", [("x", .int 9)]⟩, ⟨3, "C", [("x", .int 7)]⟩]
+/-- the completed run's match: stack `[A, B5, B9, C7]` -/
+def c01EnumBase : Match :=
+  let st : List Entry := [⟨⟨0, "A", []⟩, some "a"⟩, ⟨⟨1, "B", [("x", .int 5)]⟩, some "b"⟩,
+                          ⟨⟨2, "B", [("x", .int 9)]⟩, some "b"⟩, ⟨⟨3, "C", [("x", .int 7)]⟩, some "c"⟩]
+  ⟨st, capsOf st⟩
+/-- the match reported for the combination `{B5}`: captures b = B5, c = C7 -/
+def c01EnumBad : Match := ⟨c01EnumBase.stack, ("b", ⟨1, "B", [("x", .int 5)]⟩) :: c01EnumBase.caps⟩
+
+/-- C01-late-selfref-all: `A as a -> all B as b -> all C where x > c.x as c -> D as d` on A, B, C{x:5}, C{x:3}, D -/
+def c01LatePat : Pat :=
+  { steps := [⟨"A", none, some "a", false⟩, ⟨"B", none, some "b", true⟩,
+              ⟨"C", some (.cmpRef "x" .gt "c" "x"), some "c", true⟩, ⟨"D", none, some "d", false⟩], partition := none, negs := [] }
+def c01LateEvs : List Event :=
+  [⟨0, "A", []⟩, ⟨1, "B", []⟩, ⟨2, "C", [("x", .int 5)]⟩, ⟨3, "C", [("x", .int 3)]⟩, ⟨4, "D", []⟩]
+def c01LateMatch : Match :=
+  let st : List Entry := [⟨⟨0, "A", []⟩, some "a"⟩, ⟨⟨1, "B", []⟩, some "b"⟩, ⟨⟨2, "C", [("x", .int 5)]⟩, some "c"⟩,
+                          ⟨⟨3, "C", [("x", .int 3)]⟩, some "c"⟩, ⟨⟨4, "D", []⟩, some "d"⟩]
+  ⟨st, capsOf st⟩
+
+/-! ## towards the stack-level re-reading of an enumerated match (steps for `GenuineK` on `deferredOK` patterns) -/
+
+/-- a predicate only looks at the captures of the aliases it mentions -/
+theorem evalPred_congr (q : Pred) (e : Event) (c1 c2 : Caps)
+    (h : ∀ a ∈ q.refs, c1.lookup a = c2.lookup a) : evalPred q e c1 = evalPred q e c2 := by
+  induction q with
+  | cmp f op v => rfl
+  | cmpRef f op a rf =>
+    unfold evalPred
+    rw [h a (by simp [Pred.refs])]
+  | and l r ihl ihr =>
+    unfold evalPred
+    rw [ihl (fun a ha => h a (by simp [Pred.refs, ha])), ihr (fun a ha => h a (by simp [Pred.refs, ha]))]
+  | or l r ihl ihr =>
+    unfold evalPred
+    rw [ihl (fun a ha => h a (by simp [Pred.refs, ha])), ihr (fun a ha => h a (by simp [Pred.refs, ha]))]
+  | not q ih =>
+    unfold evalPred
+    rw [ih (fun a ha => h a (by simpa [Pred.refs] using ha))]
+
+/-- every subsequence is enumerated by `subseqs` -/
+theorem mem_subseqs_of_sublist {α} {l es : List α} (h : es.Sublist l) : es ∈ subseqs l := by
+  induction h with
+  | slnil => simp [subseqs]
+  | cons a _ ih => unfold subseqs; exact List.mem_append.mpr (Or.inr ih)
+  | cons_cons a _ ih => unfold subseqs; exact List.mem_append.mpr (Or.inl (List.mem_map.mpr ⟨_, ih, rfl⟩))
+
+/-- what an alias is bound to depends only on the entries carrying that alias -/
+theorem lookup_capsOf_filter (a : String) (l : List Entry) :
+    (capsOf l).lookup a = (capsOf (l.filter fun en => en.alias == some a)).lookup a := by
+  induction l with
+  | nil => rfl
+  | cons en rest ih =>
+    by_cases h : (en.alias == some a) = true
+    · simp only [List.filter_cons, h, if_true, capsOf, List.lookup_append, ih]
+    · simp only [List.filter_cons, h, Bool.false_eq_true, if_false, capsOf, List.lookup_append, ih]
+      have : en.binding.lookup a = none := by
+        unfold Entry.binding
+        cases hx : en.alias with
+        | none => rfl
+        | some c =>
+          have hca : (a == c) = false := by
+            rw [hx] at h
+            have : c ≠ a := by simpa using h
+            simpa using Ne.symm this
+          simp [List.lookup_cons, hca]
+      rw [this]; simp
+
+/-- entries that all bind the alias `b` do not change what another alias is bound to -/
+theorem lookup_capsOf_skip (b a : String) (hab : a ≠ b) (pre grp post : List Entry)
+    (hg : ∀ en ∈ grp, en.alias = some b) :
+    (capsOf (pre ++ grp ++ post)).lookup a = (capsOf (pre ++ post)).lookup a := by
+  rw [lookup_capsOf_filter a (pre ++ grp ++ post), lookup_capsOf_filter a (pre ++ post)]
+  have : grp.filter (fun en => en.alias == some a) = [] := by
+    apply List.filter_eq_nil_iff.mpr
+    intro en hen
+    rw [hg en hen]
+    simpa using Ne.symm hab
+  simp only [List.filter_append, this, List.append_nil]
+
 end Varpulis.Sase
